@@ -15,6 +15,8 @@ go test -count=1 ./sim/kernel ./sim/driver ./sim/ref
 go build -race -tags verif -o .work/simrun-race-warm ./cmd/simrun && rm -f .work/simrun-race-warm
 # warm the GOAMD64=v3 build cache (third build configuration of the C19 check)
 GOAMD64=v3 go build -tags verif -o .work/simrun-v3-warm ./cmd/simrun && rm -f .work/simrun-v3-warm
+# warm the GOARCH=386 build cache (the library on a 32-bit platform: sign and pool worlds)
+GOARCH=386 go build -tags verif -o .work/simrun-386-warm ./cmd/simrun && rm -f .work/simrun-386-warm
 # warm the build cache of the newer toolchain (the stall world of C09/C14 runs in testing/synctest bubbles)
 if command -v go1.26.8 >/dev/null; then
   go1.26.8 test -c -tags verif -o .work/simstall-warm.test ./sim/worlds/stall && rm -f .work/simstall-warm.test
